@@ -366,6 +366,12 @@ def run_layout(ctx, spec, viol, cases, lines, outs, choices=None):
                 # directory, `.bzr` file ...): the statement does not say; neither demanded nor refused
                 fake = [q for q in info if q.rsplit("/", 1)[-1] in (".bzr", ".git") and not info[q][4]
                         and q not in names]
+                # bzr: a *versioned* directory holding a `.bzr` directory that is not a control
+                # directory is a tree reference for the tree itself (kind()) but not for find_format:
+                # whether its content belongs to this tree is not for the statement to say
+                fake += [x.rsplit("/", 1)[0] for x in list(fake)
+                         if fmt == "2a" and x.endswith("/.bzr") and info[x][1] == "d"
+                         and x.rsplit("/", 1)[0] in before]
                 dontcare = set(q for q in info if any(under(x, q) for x in fake))
                 if new - want_new - dontcare:
                     viol.append((case, "versioned although the statement excludes it: %r"
